@@ -284,3 +284,71 @@ def h_agent_final_cause(start, runtime, dt1, dt2, e1, e2):
     check(len(pubs) == 1 and pubs[0]['state'] == expected
           and pubs[0]['uid'] == 'pilot.0000',
           'published final pilot state %s, expected %s', pubs, expected)
+
+
+# ------------------------------------------------------------------------------
+# two threads deliver notifications for the same pilot (control thread:
+# pilot_activate, state thread: state updates): PilotManager._update_pilot as
+# coroutines under a symbolic schedule
+#
+from vfw import coro as C                                         # noqa: E402
+from vfw.api import conc                                          # noqa: E402
+import radical.pilot.pilot_manager as m_pmgr                      # noqa: E402
+
+PM_NAMES  = ['_update_pilot']
+PM_SHARED = ['self._pilots', '._update(', 'self.advance(',
+             '_pilot_state_progress', 'pilot_dict[']
+PMCORO, PMCORO_INFO = C.make_coros(m_pmgr.PilotManager, PM_NAMES, PM_SHARED)
+
+INIT2 = [0, 2, 3]            # NEW, PMGR_LAUNCHING, PMGR_ACTIVE_PENDING
+NOTE2 = [3, 4, 5, 7]         # ACTIVE_PENDING, ACTIVE, DONE, CANCELED
+
+
+@obligation(params={'ic': (0, 2), 'n1': (0, 3), 'n2': (0, 3), 'sw1': (0, 16),
+                    'sw2': (0, 16)},
+            shapes={'quick': [{'B': 1}], 'thorough': [{'B': 2}]},
+            partition={'quick': ('sw1', 17), 'thorough': ('sw1', 17)},
+            timeout={'quick': 300, 'thorough': 900},
+            funcs=['radical/pilot/pilot_manager.py:PilotManager._update_pilot',
+                   'radical/pilot/pilot.py:Pilot._update',
+                   'radical/pilot/states.py:_pilot_state_progress'],
+            bounds='one pilot in NEW / PMGR_LAUNCHING / PMGR_ACTIVE_PENDING; '
+                   'two threads each deliver one notification (ACTIVE_PENDING, '
+                   'ACTIVE, DONE or CANCELED) through _update_pilot; <= B '
+                   'pre-emptions at the first 16 yield points',
+            stubs=['_pilots_lock -> cooperative lock', 'advance -> no-op'])
+def h_pilot_notify_threads(ic, n1, n2, sw1, sw2, B=1):
+    """concurrent notifications never move the pilot backwards"""
+    if B < 2 and sw2: return
+    if sw2 and sw2 < sw1: return
+    ic, n1, n2 = conc(ic, 0, 2), conc(n1, 0, 3), conc(n2, 0, 3)
+    sw = [x for x in (conc(sw1, 0, 16), conc(sw2, 0, 16)) if x]
+    pm = mk_pmgr()
+    pm._pilots_lock = C.CoopLock('_pilots_lock')
+    pm._pcb_lock    = FakeLock()
+    pm._callbacks   = {m: dict() for m in rpc.PMGR_METRICS}
+    pm.advance      = lambda *a, **k: None
+    cur = PSTATES[INIT2[ic]]
+    p   = mk_pilot_obj(pm, 'pilot.0000', cur)
+    pm._pilots['pilot.0000'] = p
+    seen = []
+    pm._callbacks[rpc.PILOT_STATE]['cb'] = {
+        'cb': lambda pilot, state: seen.append(state), 'cb_data': None}
+    errs = []
+    def thread(st):
+        try:
+            yield from PMCORO['_update_pilot'](
+                pm, {'type': 'pilot', 'uid': 'pilot.0000', 'state': st})
+        except (ValueError, RuntimeError) as e:
+            errs.append(repr(e))        # a contradictory update was refused
+    sch = C.Coop([('control', thread(PSTATES[NOTE2[n1]])),
+                  ('state',   thread(PSTATES[NOTE2[n2]]))], switch_at=sw)
+    sch.run()
+    reach()
+    trace('cur', cur, 'notes', PSTATES[NOTE2[n1]], PSTATES[NOTE2[n2]],
+          'seen', seen, 'state', p.state, 'errs', errs, 'schedule', sch.log)
+    _check_seq(cur, seen, p.state)
+    hi = max(PVAL[cur], PVAL[PSTATES[NOTE2[n1]]], PVAL[PSTATES[NOTE2[n2]]])
+    if not errs:
+        check(PVAL[p.state] == hi, 'pilot ends in %s although %s and %s were '
+              'notified', p.state, PSTATES[NOTE2[n1]], PSTATES[NOTE2[n2]])
